@@ -200,7 +200,7 @@ func corruptStream(s *Stream, startFlip, maxPositions int, progress func(flip in
 					if nv < 1<<47 {
 						cls = 1
 					}
-					if (cls == 1 && nv < 8<<30) || hugeBudget[cls] <= 0 {
+					if (cls == 1 && nv < 4<<30) || hugeBudget[cls] <= 0 {
 						res.SkippedHuge++
 						continue
 					}
@@ -347,9 +347,9 @@ func corruptChild(args []string) int {
 	hugeBudget = [2]int{hb, hb}
 	outPath, progPath := args[7], args[8]
 	// a corrupted length must not be able to take the machine down
-	lim := syscall.Rlimit{Cur: 4 << 30, Max: 4 << 30}
+	lim := syscall.Rlimit{Cur: 2 << 30, Max: 2 << 30}
 	syscall.Setrlimit(syscall.RLIMIT_AS, &lim)
-	debug.SetMemoryLimit(1 << 30)
+	debug.SetMemoryLimit(768 << 20)
 	pf, err := os.Create(progPath)
 	if err != nil {
 		fmt.Fprintln(os.Stderr, err)
